@@ -4,7 +4,9 @@
 // prefixes.  Switching away from a still-enabled thread costs one preemption; choices at points
 // where the running thread is blocked (or which waiter a signal wakes) are free.
 #pragma once
+#include <dirent.h>
 #include <fcntl.h>
+#include <sys/stat.h>
 #include <poll.h>
 #include <signal.h>
 #include <sys/syscall.h>
@@ -14,6 +16,7 @@
 
 #include <cstring>
 #include <functional>
+#include <map>
 #include <set>
 #include <string>
 #include <vector>
@@ -100,6 +103,27 @@ inline void writeAll(int fd, const std::string& s) {
     off += n;
   }
 }
+// scratch files of a finished child (a schedule that ends in a deadlock / crash / timeout never reaches its own clean-up, and
+// pids are reused quickly: a later child with the same pid must not find them)
+inline void rmTree(const std::string& path) {
+  struct stat st;
+  if (lstat(path.c_str(), &st) != 0) return;
+  if (S_ISDIR(st.st_mode)) {
+    if (DIR* d = opendir(path.c_str())) {
+      while (struct dirent* e = readdir(d)) {
+        std::string n = e->d_name;
+        if (n != "." && n != "..") rmTree(path + "/" + n);
+      }
+      closedir(d);
+    }
+    rmdir(path.c_str());
+  } else {
+    unlink(path.c_str());
+  }
+}
+inline void cleanChildScratch(pid_t pid) {
+  for (const char* pre : {"/dev/shm/c14.", "/dev/shm/c19s.", "/dev/shm/c20-kmsg."}) rmTree(std::string(pre) + std::to_string(pid));
+}
 inline double nowSec() {
   struct timespec ts;
   syscall(SYS_clock_gettime, CLOCK_MONOTONIC, &ts);  // the interposed clock is virtual only inside scheduled children
@@ -142,6 +166,7 @@ struct Stats {
   int boundCompleted = -1;
   bool capped = false;
   size_t maxTrace = 0;
+  size_t retries = 0;  // schedules re-executed after a replay divergence / wall timeout
   std::set<std::string> outcomes;
 };
 
@@ -151,11 +176,47 @@ inline bool explore(const Body& body, int pb, size_t maxSchedules, double deadli
                     const std::function<void(const Result&, const std::vector<int>& prefix)>& onResult, int maxSteps = 20000,
                     const std::string& sanLogPrefix = "") {
   double tEnd = detail::nowSec() + deadlineSec;
+  if (const char* one = getenv("VERIF_ONE_SCHEDULE")) {
+    // debugging aid: execute ONE schedule (comma separated choices) VERIF_ONE_REPEAT times and print what each run observed
+    std::vector<int> prefix;
+    for (const char* p = one; *p;) {
+      prefix.push_back(atoi(p));
+      while (*p && *p != ',') p++;
+      if (*p == ',') p++;
+    }
+    int rep = getenv("VERIF_ONE_REPEAT") ? atoi(getenv("VERIF_ONE_REPEAT")) : 1;
+    for (int k = 0; k < rep; k++) {
+      int p[2];
+      if (pipe(p) != 0) return false;
+      fflush(nullptr);
+      pid_t pid = fork();
+      if (pid == 0) {
+        close(p[0]);
+        childMain(body, prefix, p[1], maxSteps, getenv("VERIF_ONE_VERBOSE") != nullptr);
+      }
+      close(p[1]);
+      std::string buf;
+      char b[65536];
+      ssize_t n;
+      while ((n = read(p[0], b, sizeof b)) > 0) buf.append(b, n);
+      close(p[0]);
+      int status = 0;
+      waitpid(pid, &status, 0);
+      detail::cleanChildScratch(pid);
+      Result r;
+      bool ok = detail::decode(buf, r);
+      printf("ONE-SCHEDULE run %d: %s status=%s rule=%s points=%zu obs=%s\n", k, ok ? "decoded" : "no-result", statusName(r.status), r.rule.c_str(), r.trace.size(), r.obs.substr(0, 200).c_str());
+      if (!r.detail.empty()) printf("  detail: %s\n", r.detail.substr(0, 600).c_str());
+    }
+    fflush(stdout);
+    return true;
+  }
   if (const char* cap = getenv("VERIF_PB_CAP")) pb = std::min(pb, atoi(cap));  // quick tier of the atomics pass
   for (int bound = 0; bound <= pb; bound++) {
     std::vector<std::vector<int>> stack;
     stack.push_back({});
     std::vector<Job> running;
+    std::map<std::vector<int>, int> retried;
     bool stop = false;
     while ((!stack.empty() || !running.empty())) {
       while (!stop && !stack.empty() && (int)running.size() < parallel) {
@@ -204,6 +265,7 @@ inline bool explore(const Body& body, int pb, size_t maxSchedules, double deadli
         close(j.fd);
         int status = 0;
         waitpid(j.pid, &status, 0);
+        detail::cleanChildScratch(j.pid);
         Result r;
         if (!detail::decode(j.buf, r)) {
           r.status = killed ? S_TIMEOUT : S_CRASH;
@@ -221,6 +283,14 @@ inline bool explore(const Body& body, int pb, size_t maxSchedules, double deadli
             }
           }
           // the trace is lost; the prefix identifies the schedule (remaining choices default to 0)
+        }
+        // A divergence while replaying a prefix, or a wall-clock timeout, can be an artefact of a loaded machine: the schedule is
+        // re-executed (up to two more times) before it is believed.  A deterministic defect shows up again every time.
+        if ((r.status == S_DIVERGED || r.status == S_TIMEOUT) && retried[j.prefix] < 2) {
+          retried[j.prefix]++;
+          st.retries++;
+          stack.push_back(j.prefix);
+          continue;
         }
         // pass `bound` re-executes the schedules of the earlier passes (their traces are needed to branch); only the new ones
         // (exactly `bound` preemptions, or any schedule whose trace was lost) are counted and checked
